@@ -68,6 +68,69 @@ theorem converted_builders_keep_difficulty :
       (row.2.1.lookup "hitresult_priority" = some "hitresult_priority" → row.2.2.lookup "hitresult_priority" = some "hitresult_priority") := by
   decide
 
+/-! ## The concrete functions have the modelled skeleton (generated) -/
+
+open Rosu.Gen.PerfSkeleton in
+/-- **`generate_state` and `calculate` of all four mode builders have exactly the skeleton the
+model functions `generateState` / `calculate` were transcribed from** (`Gen/PerfSkeleton.lean`,
+re-extracted from src/<mode>/performance/mod.rs on every run): on the map path the attributes are
+computed with the builder's own `Difficulty` from the builder's map and stored back with
+`insert_attrs`; on the attributes path they are used as they are; the float-level remainder of
+`generate_state` reads nothing but the attributes, the `Difficulty` and the score fields; `calculate`
+first calls `generate_state`, takes the (now stored) attributes, and hands attributes, state and
+`Difficulty`-derived values — nothing else — to one `<Mode>PerformanceCalculator::new`.  No other
+method of a builder looks at `map_or_attrs`. -/
+theorem skeletons_are_the_model :
+    perfSkeletons.map (·.1) = ["Osu", "Taiko", "Catch", "Mania"] ∧
+    ∀ row ∈ perfSkeletons,
+      conformsAll row.2.1 generateStateSkeleton = true ∧
+      conformsAll row.2.2.1 calculateSkeleton = true ∧
+      row.2.2.2 = [] := by decide
+
+open Rosu.Gen.PerfSkeleton in
+/-- `MapOrAttrs::insert_attrs` overwrites the source with the attributes; a map converts to `Map`,
+difficulty attributes to `Attrs`, performance attributes to `Attrs` of their embedded difficulty
+attributes — for each of the four modes (rows of the `from_attrs!` invocation). -/
+theorem map_or_attrs_as_modelled :
+    insertAttrsBody = insertAttrsModel ∧ mapOrAttrsFrom = fromModel ∧
+    fromAttrsRows = ["osu", "taiko", "catch", "mania"].zip (["Osu", "Taiko", "Catch", "Mania"].map
+      (fun m => (m, m ++ "DifficultyAttributes", m ++ "PerformanceAttributes"))) := by decide
+
+/-- Non-vacuity of `conforms`: a skeleton whose map arm computes the attributes with fresh settings,
+one that does not store them back, and one whose remainder looks at the source again are rejected. -/
+example :
+    let arm (l : List String) : List Rosu.Gen.PerfSkeleton.Stmt :=
+      [.receiver "&mut self",
+       .letMatch "attrs" "self.map_or_attrs" [("MapOrAttrs::Map(ref map)", l), ("MapOrAttrs::Attrs(ref attrs)", ["attrs"])],
+       .opaque ["attrs"]]
+    conformsAll (arm ["let v0=Difficulty::new().calculate_for_mode::<MODE>(map)?", "self.map_or_attrs.insert_attrs(v0)"]) generateStateSkeleton = false ∧
+    conformsAll (arm ["self.difficulty.calculate_for_mode::<MODE>(map)?"]) generateStateSkeleton = false ∧
+    conformsAll ((generateStateSkeleton.take 2) ++ [.opaque ["attrs", "self.map_or_attrs"]]) generateStateSkeleton = false ∧
+    conformsAll ((generateStateSkeleton.take 2) ++ [.opaque ["attrs", "self.spec"]]) generateStateSkeleton = true := by decide
+
+open Rosu.Gen.PerfSkeleton in
+/-- **Constructing a builder only wraps its argument.**  Every `impl IntoModePerformance /
+IntoPerformance` of src/any/performance/into.rs (the macro-generated ones for the attributes of the
+four modes, `Beatmap`, `&Beatmap` included) takes `self` by value without `mut` and consists of the
+single expression listed in `intoImplsModel`: `from_map_or_attrs(self.into())` (with
+`MapOrAttrs::from` = `Map(Cow::Owned/Borrowed(map))` / `Attrs(attrs)` / `Attrs(attrs.difficulty)`,
+`map_or_attrs_as_modelled`), or a diagonal dispatch to it.  `from_map_or_attrs` of each mode stores
+the source as given together with `Difficulty::new()` and no score data; `new`, `try_new`,
+`From<T>::from` and `Performance::new` just call `into_performance()`.  So no conversion, no
+mutation of the map and no settings are involved at construction time. -/
+theorem constructors_only_wrap :
+    intoImpls = intoImplsModel ∧ intoOtherImpls = [] ∧
+    fromMapOrAttrs.map (·.1) = ["Osu", "Taiko", "Catch", "Mania"] ∧
+    (∀ row ∈ fromMapOrAttrs, row.2.all freshBuilderField = true ∧
+      row.2.lookup "map_or_attrs" = some "map_or_attrs" ∧ row.2.lookup "difficulty" = some "Difficulty::new()") ∧
+    builderConstructors = ["Osu", "Taiko", "Catch", "Mania"].map (fun m => (m, builderConstructorsModel)) ∧
+    performanceNew = ["map_or_attrs.into_performance()"] := by decide +kernel
+
+/-- Non-vacuity: an `into_performance` that converts the owned map eagerly is not in the model table. -/
+example : ("IntoModePerformance", "Beatmap",
+    ["fn into_performance(mut self)", "let _=self.convert_mut(GameMode::$mode,&GameMods::DEFAULT)",
+     "<mode!()as IGameMode>::Performance::from_map_or_attrs(self.into())"]) ∉ intoImplsModel := by decide +kernel
+
 /-- Non-vacuity on concrete functions. -/
 example :
     calculate (fun (d : Nat) (m : Nat) => d + m) (fun a d (x : Nat) => a * d + x) (fun a d st => (a, d, st))
